@@ -14,8 +14,8 @@ Fails closed: an anchor that is not recognised is emitted as a value that falsif
 import ast
 from fractions import Fraction
 
-from ._symsrc import (SRCOPS_FILE, Out, Sym, affine, affine1, as_int, cmp_parts, exc_name, find, find_def, match,
-                      read_tree, safe, text)
+from ._symsrc import (SRCOPS_FILE, Out, Sym, affine, affine1, as_int, cmp_parts, exc_name, find, find_def, func_shape,
+                      match, read_tree, safe, text)
 
 
 def _edges_for(o, tree):
@@ -199,6 +199,13 @@ def _others(o, tree):
     o.cmp("alignFlipCmp", neg[0] if safe(lambda: conds[-1][1] is True, False) else None, "… and flips when `<lhs> op n`")
     o.str("alignFlipLhs", safe(lambda: text(neg[1])))
     o.int("alignFlipRhs", safe(lambda: as_int(neg[2])))
+    o.str("alignClosedRefusal", safe(lambda: (lambda rz: text(rz[0][0][-1][0]) if len(rz) == 1 and rz[0][0][-1][1] is True else None)(s.raises())),
+          "and refuses when")
+    o.str("alignRaises", safe(lambda: (lambda rz: exc_name(rz[0][1]) if len(rz) == 1 else None)(s.raises())))
+    mf = safe(lambda: match("Polyline(v=_W(self.v), is_closed=self.is_closed)", only_return("Polyline.flipped"))) or {}
+    o.str("flippedWrapper", safe(lambda: text(mf["_W"])), "`flipped` = `Polyline(v=<wrapper>(self.v), is_closed=self.is_closed)`")
+    mi = safe(lambda: match("_only(_M.nonzero())[_I]", (lambda rs: rs[0] if len(rs) == 1 else None)(Sym(fn).returns()))) or {}
+    o.int("indexOfVertexPick", safe(lambda: as_int(mi["_I"])), "`index_of_vertex` returns the match with this index")
 
 
 def generate(repo):
@@ -214,4 +221,10 @@ def generate(repo):
             del o.lines[n:]
             o.notes.append("%s: %r" % (part.__name__, e))
         o.blank()
+    o.shapes("functionShapes",
+             [func_shape(t0, "edges_for")] +
+             [func_shape(t1, "Polyline." + q) for q in ("rolled", "sliced_at_indices", "sectioned", "with_insertions", "flipped",
+                                                         "join", "index_of_vertex", "aligned_with")],
+             "for every function read above: (name, decorators, parameters with defaults, statements the symbolic reader "
+             "does not interpret, other bindings of the name in its scope)")
     return [SRCOPS_FILE, o.result()]
